@@ -351,10 +351,11 @@ INT32_MIN, INT32_MAX = -(2 ** 31), 2 ** 31 - 1
 PRE_ALLOC = z3.Function("pre_alloc", Obj, z3.BoolSort())
 
 
-def alloc_axioms(exprs, param_refs=()):
+def alloc_axioms(exprs, param_refs=(), with_alloc=True):
     """Closed-heap assumption: every reference stored in the *initial* heap (arrays named H0!...) and every
     reference parameter denotes an object allocated before the call."""
     seen = {}
+    lens = {}
     stack = list(exprs)
     visited = set()
     while stack:
@@ -367,8 +368,16 @@ def alloc_axioms(exprs, param_refs=()):
             continue
         if z3.is_const(e) and e.decl().kind() == z3.Z3_OP_UNINTERPRETED and e.decl().name().startswith("H0!"):
             seen[e.decl().name()] = e
+        if z3.is_const(e) and e.decl().kind() == z3.Z3_OP_UNINTERPRETED and "$len@" in e.decl().name() \
+                and z3.is_array(e):
+            lens[e.decl().name()] = e
         stack.extend(e.children())
-    axs = [PRE_ALLOC(r) for r in param_refs]
+    axs = [PRE_ALLOC(r) for r in param_refs] if with_alloc else []
+    for name, arr in lens.items():
+        o = z3.Const("ax_o", Obj)
+        axs.append(z3.ForAll([o], z3.Select(arr, o) >= 0))      # a list length is never negative
+    if not with_alloc:
+        return axs
     for name, arr in seen.items():
         srt = arr.sort()
         doms = []
@@ -621,7 +630,20 @@ class Exec:
         pushed = 0
         try:
             for i, e in enumerate(node.values):
-                v = self.ev(e, st)
+                lt0 = None
+                if vals and isinstance(e, ast.List) and not e.elts:
+                    t0 = vals[0].ty.t if isinstance(vals[0].ty, T.Opt) else vals[0].ty
+                    if isinstance(t0, T.List):
+                        lt0 = t0
+                if lt0 is not None:
+                    self._pending_list_type, self._pending_region = lt0.t, lt0.region
+                    try:
+                        v = self.ev(e, st)
+                    finally:
+                        self._pending_list_type = self._pending_region = None
+                    v = V(lt0, v.terms)
+                else:
+                    v = self.ev(e, st)
                 vals.append(v)
                 if i < len(node.values) - 1:
                     t = self.truthy(st, v)
